@@ -258,9 +258,9 @@ Theorem C11_generated_assembly :
          (Fg : 'M[F]_ng) (Fa : 'M[F]_na) (Jg : 'M[F]_(3, vg)) (Ja : 'M[F]_(3, va))
          (Gg : 'M[F]_(ng, qg)) (Ga : 'M[F]_(na, qa))
          (v_g : 'cV[F]_vg) (v_a : 'cV[F]_va) (q_g : 'cV[F]_qg) (q_a : 'cV[F]_qa),
-  [/\ icov_ret0 Pg Pa T Ppva = init_cov T Ppva Pg Pa,
-      epm_ret0 Fg Fa Fii Fig Fia Hg Ha = asm_F Fii Fig Fia Hg Ha Fg Fa
-    & epm_ret1 Gg Jg v_g q_g Ga Ja v_a q_a Fig Fia = asm_Q Fig Fia Jg Ja Gg Ga v_g v_a q_g q_a].
+  [/\ icov_ret0 T Ppva Pg Pa = init_cov T Ppva Pg Pa,
+      epm_ret0 Fii Fig Fia Hg Ha Fg Fa = asm_F Fii Fig Fia Hg Ha Fg Fa
+    & epm_ret1 Fig Fia Jg Ja Gg Ga v_g v_a q_g q_a = asm_Q Fig Fia Jg Ja Gg Ga v_g v_a q_g q_a].
 Proof. exact generated_assembly. Qed.
 Print Assumptions C11_generated_assembly.
 
